@@ -409,7 +409,7 @@ pub fn handle_factory() -> impl FnMut(&str, &Value, &mut WorkerIo) -> (Value, bo
     let mut w = W { h: Harness::new(SrvOpts::default()), sentinel_ready: false, started: 0 };
     crate::WATCHDOG_LIMIT_MS.store(12_000, std::sync::atomic::Ordering::SeqCst);
     move |tier: &str, task: &Value, io: &mut WorkerIo| {
-        let thorough = task["thorough"].as_bool().unwrap_or(tier == "thorough");
+        let thorough = task["thorough"].as_bool().or_else(|| task["replay"]["thorough"].as_bool()).unwrap_or(tier == "thorough");
         let all = cases(thorough);
         let run = |w: &mut W, i: usize, io: &mut WorkerIo| -> Value {
             let c = &all[i];
@@ -505,6 +505,27 @@ pub fn parent(tier: &str) -> i32 {
             }
         }
         pending = next;
+    }
+    // A worker that died is a long-lived process (thousands of cases, restarted servers, an address-space limit): before
+    // its death becomes the verdict of the case it had announced, that case is run again alone in a fresh worker. A
+    // subject that really crashes the process does so again.
+    {
+        let died: Vec<usize> = results.iter().filter(|(_, (o, _))| o.starts_with("process died")).map(|(i, _)| *i).collect();
+        if !died.is_empty() {
+            let tasks: Vec<Value> = died.iter().map(|i| json!({"range": [i, i + 1], "skip": [], "thorough": thorough, "fresh": true})).collect();
+            let out = pool.map(tasks, 1); // (a new worker process for every one of them)
+            for (idx, o) in died.iter().zip(out.iter()) {
+                if let Outcome::Done(v) = o {
+                    if let Some(r) = v["recs"].as_array().and_then(|a| a.first()) {
+                        if r.get("machinery_error").is_none() {
+                            let mut d = r["detail"].clone();
+                            d["note"] = json!("the long-lived worker died while this case ran; alone in a fresh worker the case ends like this");
+                            results.insert(*idx, (r["outcome"].as_str().unwrap_or("").to_string(), d));
+                        }
+                    }
+                }
+            }
+        }
     }
     let mut outcomes: BTreeSet<String> = BTreeSet::new();
     let mut distinct: BTreeSet<String> = BTreeSet::new();
